@@ -345,6 +345,13 @@ func genBinop(r *gen.Rand) exprCase {
 		}
 		e.Hint = a
 		e.Inner, e.Inner2 = a.text(0), b.text(0)
+		if r.Chance(1, 2) {
+			// explicit matching on the stored label sets: (job, instance) identifies a series of a metric, so these are
+			// one-to-one; on(job) / ignoring(instance) are many-to-many (upstream rejects them: case skipped) unless the
+			// matchers leave one series per group
+			e.BinOp = op + " " + gen.Pick(r, []string{"on (job,instance)", "ignoring (env,zone)", "ignoring (zone)", "ignoring (env)",
+				"on (job,instance,env)", "on (instance,job,zone)", "ignoring (nolabel)", "on (job)", "ignoring (instance,env,zone)", "on (job,instance,__name__)"})
+		}
 	case 7, 8: // vector op vector with on / ignoring after aggregation (one-to-one by construction)
 		g := gen.Pick(r, [][]string{{"job"}, {"instance"}, {"job", "instance"}, {"env"}})
 		in := genVecOperand(r)
